@@ -128,7 +128,7 @@ PROPS = {
         title="Explicit bound modes and the type's own generics are honoured verbatim",
         theorems=[],
         streams=[stream('hdr', 'headers', kinds=('struct', 'enum', 'union'), faults=0.0, n=(3000, 50000))],
-        k2=['generics', 'bounds'], k2_n=(100, 1500),
+        k2=['generics', 'bounds'], k2_n=(100, 1500), k2_n_by={'bounds': (400, 3000)},
         direct=[('c12', (3000, 30000)), ('rejections', (1500, 15000), dict(key='c12r'))],
     ),
     'C13': dict(
